@@ -51,7 +51,7 @@ def register(claim, not_yet):
     claim('C05',
           'Proved for all lengths, filters, cotangents: strided correlation and transposed convolution are mutual adjoints; AFB1D.backward in mode zero (sfb1d + crop) satisfies '
           '<forward x, g> = <x, backward g>, and in periodization for every length N >= 1 (odd included: the gradient of the repeated last sample is folded back) and even L <= N + N%2 '
-          '(afb_per_adjoint, from the circular transpose theorem). TWO DIMENSIONS, mode zero: one-dimensional pair adjointness lifts along the columns and along the rows of an image (C05D.pairH, pairW), and the code path - row pass then column pass forward; column synthesis of the two band pairs, row synthesis, one crop per axis at the very end backward (AFB2D_forward_val, AFB2D_backward_val) - satisfies <ll,gll> + <lh,glh> + <hl,ghl> + <hh,ghh> = <x, AFB2D.backward(g)> for every image size and filter lengths (AFB2D_zero_adjoint). TWO DIMENSIONS, periodization: the same identity for every image size, odd sizes included (the gradient of the repeated last row / column is folded back once per axis at the very end, which commutes with the row synthesis because the synthesis is additive in the band pair - C05P.idwt_per_add), and even filter lengths L <= size + size % 2 per axis (C05P.AFB2D_per_adjoint; the complement of the recorded short-level finding). The padded modes in 2-D and the channel stacks are decided by the exact correspondence of the four autograd Functions backward passes (all requires_grad masks) and by the Jacobian '
+          '(afb_per_adjoint, from the circular transpose theorem). TWO DIMENSIONS, mode zero: one-dimensional pair adjointness lifts along the columns and along the rows of an image (C05D.pairH, pairW), and the code path - row pass then column pass forward; column synthesis of the two band pairs, row synthesis, one crop per axis at the very end backward (AFB2D_forward_val, AFB2D_backward_val) - satisfies <ll,gll> + <lh,glh> + <hl,ghl> + <hh,ghh> = <x, AFB2D.backward(g)> for every image size and filter lengths (AFB2D_zero_adjoint). TWO DIMENSIONS, periodization: the same identity for every image size, odd sizes included (the gradient of the repeated last row / column is folded back once per axis at the very end, which commutes with the row synthesis because the synthesis is additive in the band pair - C05P.idwt_per_add), and even filter lengths L <= size + size % 2 per axis (C05P.AFB2D_per_adjoint; the complement of the recorded short-level finding). SYNTHESIS SIDE, two dimensions, mode zero: SFB2D.backward (the analysis bank with the synthesis filters along rows, then columns of the cotangent) is the adjoint of SFB2D.forward for every band size and filter lengths that fit (C05S.SFB2D_zero_adjoint). The padded modes in 2-D and the channel stacks are decided by the exact correspondence of the four autograd Functions backward passes (all requires_grad masks) and by the Jacobian '
           'oracle J^T g on the four modules; the non-adjoint backward passes of symmetric/reflect/periodic (pinned by baseline tests) and short periodization are known findings with '
           'decide-checked witnesses.' + TIE + BRK,
           'Lean 4 adjointness theorems (inner-product identities) + exact autograd correspondence + Jacobian oracle', 'DESIGN.md §4 C05')
@@ -129,7 +129,7 @@ def register(claim, not_yet):
           'Lean 4 decide +kernel over source-translated tables (exhaustive) + loader/file correspondence + reference comparison', 'DESIGN.md §4 C18')
     claim('C19',
           'Proved: a 2-D correlation with an outer-product kernel factors into nested 1-D correlations for every kernel/image size and stride; the non-separable kernel is the outer product of '
-          'the reversed filters; the inner sum is the separable row pass. Padding/fold commutation and the synthesis side are decided by the exact correspondence of afb2d_nonsep/sfb2d_nonsep/'
+          'the reversed filters; the inner sum is the separable row pass; MODE ZERO, ANALYSIS: the four sub-bands of the model of afb2d_nonsep (two-axis zero padding with the odd extra row / column, one strided 2-D correlation per band) equal the row pass followed by the column pass of the separable bank with the reversed filters, and hence the outputs of the model of AFB2D.forward, for every image size and all filter lengths >= 2 (C19N.afb2d_nonsep_zero_eq_sep, afb2d_nonsep_zero_eq_AFB2D). The other modes (padding/fold commutation) and the synthesis side are decided by the exact correspondence of afb2d_nonsep/sfb2d_nonsep/'
           'afb2d/sfb2d (images smaller than the filter, odd filters, overlapping in-place folds) and by nonsep == separable on the real code.' + TIE + BRK,
           'Lean 4 factorisation theorems + exact correspondence + nonsep-vs-separable oracle', 'DESIGN.md §4 C19')
     claim('C08',
